@@ -251,7 +251,6 @@ Section Tree.
   Variable tid : list sport -> Z.
   Variable A : app.
 
-  Definition sw_on (s : state) (g : str) : bool := is_on (val_at s (idx_of (map p_path A) g)).
 
   Lemma to_tree_ports : forall l j q,
     nth_error l j = Some q ->
@@ -266,7 +265,7 @@ Section Tree.
     descends tbl id dir a dirF extra nm arr d aL ->
     Forall dok (sports_of tbl) -> admits (leaf_args d) ty ->
     run_events A tbl dir (chain id (to_tree hp tid (sports_of tbl)) a ty o (Some dir)) arg s =
-    if forallb (sw_on s) extra then leaf_cb A (dirF ++ nm) nm arr d (dirF ++ aL) aL arg s else None.
+    if forallb (sw_on A s) extra then leaf_cb A (dirF ++ nm) nm arr d (dirF ++ aL) aL arg s else None.
   Proof.
     induction id as [|j rest IH]; intros tbl dir a dirF extra nm arr d aL ty o arg s H Hok Hty; [contradiction|].
     pose proof (reaches_chars (sports_of tbl) (j :: rest) a ty Hok
@@ -514,17 +513,15 @@ Proof.
     exact (IH _ _ _ _ _ _ _ _ _ (pt_wf_all _ Hq) H).
 Qed.
 
+Lemma c_tree_eq : forall hp tid l, c_tree hp tid l = to_tree hp tid l.
+Proof. reflexivity. Qed.
+
 Section Dispatch.
   Variable hp : list sport -> list Z * list Z.
   Variable tid : list sport -> Z.
   Variable t : list pt.
   Let A := app_of_tree t.
   Let T := to_tree hp tid (sports_of t).
-
-  (* Ports::dispatch of the message (addr, one argument) at the root with a location
-     buffer, the callbacks it invokes run in order *)
-  Definition tree_dispatch (addr : str) (v : scalar) (s : state) : option state :=
-    run_events A t [47] (rev (log (dispatch T addr (tag_of v) true 0))) v s.
 
   Hypothesis Hnames : names_ok (sports_of t) = true.
   Hypothesis Htree : tree_ok T.
@@ -534,7 +531,7 @@ Section Dispatch.
   Theorem dispatch_elem : forall i k v s,
     (i < length A)%nat -> (k < p_len (port_at A i))%nat -> p_nodef (port_at A i) = false ->
     arg_wf v -> store (port_at A i) v <> None -> shaped A s ->
-    tree_dispatch (elem_addr (port_at A i) k) v s = set_elem A s i k v.
+    tree_dispatch hp tid t (elem_addr (port_at A i) k) v s = set_elem A s i k v.
   Proof.
     intros i k v s Hi Hk Hnd Hv Hst [Hlen Hsh].
     destruct (nth_error (flat_root t) i) as [f|] eqn:Ef.
@@ -559,7 +556,7 @@ Section Dispatch.
       pose proof (tree_exactly_one_leaf (f_id f) T (47 :: a) (tag_of v) 0 Hroot) as H1.
       cbn [strip Z.eqb Pos.eqb] in H1.
       exact (proj1 (H1 (reaches_addressed hp tid _ _ _ _ Hdis Hdok Hr))). }
-    unfold tree_dispatch. rewrite Haddr, Hlog. unfold T.
+    unfold tree_dispatch. rewrite c_tree_eq. fold T. fold A. rewrite Haddr, Hlog. unfold T.
     rewrite (run_chain hp tid A _ _ _ _ _ _ _ _ _ _ _ _ v s Hd Hdok Hty).
     (* the switches on the way are the port's p_hard *)
     assert (Hex : forallb (sw_on A s) (f_hard f) = exists_ A s i).
@@ -643,20 +640,6 @@ Section Line.
   Variable t : list pt.
   Local Notation A := (app_of_tree t).
 
-  (* dispatch_printed_messages hands a line out as one message, an array line
-     ("[v0 v1 ...]") element by element at "path<idx>" *)
-  Fixpoint tree_elems (path : str) (k : nat) (vs : value) (s : state) : option state :=
-    match vs with
-    | [] => Some s
-    | v :: r => match tree_dispatch hp tid t (path ++ dec (Z.of_nat k)) v s with
-                | Some s' => tree_elems path (S k) r s'
-                | None => None
-                end
-    end.
-  Definition tree_apply_line (l : line) (s : state) : option state :=
-    if l_array l then tree_elems (l_path l) 0 (l_vals l) s
-    else match l_vals l with [v] => tree_dispatch hp tid t (l_path l) v s | _ => None end.
-
   Hypothesis Hnames : names_ok (sports_of t) = true.
   Hypothesis Htree : tree_ok (to_tree hp tid (sports_of t)).
   Hypothesis Hwf : Forall pt_wf t.
@@ -674,7 +657,7 @@ Section Line.
     (i < length A)%nat -> p_array (port_at A i) = true -> p_nodef (port_at A i) = false ->
     (k + length vs <= p_len (port_at A i))%nat ->
     Forall (fun v => arg_wf v /\ store (port_at A i) v <> None) vs -> shaped A s ->
-    tree_elems (p_path (port_at A i)) k vs s = apply_elems A i k vs s.
+    tree_elems hp tid t (p_path (port_at A i)) k vs s = apply_elems A i k vs s.
   Proof.
     intros i vs. induction vs as [|v r IH]; intros k s Hi Ha Hnd Hk Hvs Hs; [reflexivity|].
     inversion Hvs as [|? ? [Hv Hst] Hr]; subst. cbn [length] in Hk. cbn [tree_elems apply_elems].
@@ -688,7 +671,7 @@ Section Line.
   Qed.
 
   Theorem dispatch_line : forall i l s,
-    line_for i l -> shaped A s -> tree_apply_line l s = apply_line A l s.
+    line_for i l -> shaped A s -> tree_apply_line hp tid t l s = apply_line A l s.
   Proof.
     intros i l s (Hi & Hp & Ha & Hnd & Hlen & Hvs) Hs.
     unfold tree_apply_line, apply_line. rewrite Hp.
